@@ -23,9 +23,9 @@ var bigKinds = []struct {
 }
 
 func bigBlocks(tier string) []int {
-	bs := []int{1 << 11, 1 << 12, 1 << 13, 1 << 14, 1 << 15, 1 << 16, 1 << 17}
+	bs := []int{1 << 11, 1 << 12, 1 << 13, 1 << 14, 1 << 15, 1 << 16}
 	if tier == "thorough" {
-		bs = append(bs, 1<<18, 1<<19, 1<<20)
+		bs = append(bs, 1<<17, 1<<18, 1<<19, 1<<20)
 	}
 	return bs
 }
@@ -76,7 +76,7 @@ func bigCases(b int, kind string, n *int, yield func(PCase) bool) bool {
 }
 
 var specBig = pbt.Register(&pbt.Spec[PCase]{
-	Property: "C16", Name: "C16.big", Rule: "enumerated phase histories around every block size B = 2^11..2^17 (thorough: ..2^20) for Queue[int], nil Stack[int], Queue[3-word struct], and up to 2^16 / 2^15 / 2^14 / 2^14 / 2^12 for " +
+	Property: "C16", Name: "C16.big", Rule: "enumerated phase histories around every block size B = 2^11..2^16 (thorough: ..2^20; the sizes reach 2B+2) for Queue[int], nil Stack[int], Queue[3-word struct], and up to 2^16 / 2^15 / 2^14 / 2^14 / 2^12 for " +
 		"Stack[string], capacity-4 Stack[[16]int64] (128-byte elements), Queue[[129]byte], Queue[*int referenced only by the queue], Stack[[1500]byte]: " +
 		"(A) fill B+d, drain to B/2+e, fill up to 2B+d, drain to B/4+e, drain to empty + 2 calls on the empty container, fill 5, drain (d -1..2, e -1..1), with runtime.GC() + small allocations after the first fill (d=0) or before the last drain (d=1); " +
 		"(B) fill f in 1,3,B/2,B-1,B+1, then 2B+3 values slide through (one in / one out; Stack: three in / three out), drain; " +
@@ -294,7 +294,7 @@ func runHuge(c Case) pbt.Outcome {
 
 var specHuge = pbt.Register(&pbt.Spec[Case]{
 	Property: "C16", Name: "C16.huge", Rule: "zero-size element types (struct{}, [0]int, [0]func()): " + rulePre + " - such a slice costs no memory at any length. Enumerated: L = 2^k+d for every k in 15..62, d in -1..1 " +
-		"(and MaxInt-600, 3*2^61, 2^62+12345) x S in 0,1,8 x the three types with a fixed history (2 pushes, 3 pops, 9 pushes, 20 pops, in every eighth case runtime.GC(), 8 pushes, 17 pops, Peek/Len between); rapid: L among 2^k+d (k 15..62, d -2..2), MaxInt-600-(0..1000), " +
+		"(and MaxInt-600, 3*2^61, 2^62+12345) x S in 0,1,8 x the three types with a fixed history (2 pushes, 3 pops, 9 pushes, 20 pops, in every 16th case runtime.GC(), 8 pushes, 17 pops, Peek/Len between); rapid: L among 2^k+d (k 15..62, d -2..2), MaxInt-600-(0..1000), " +
 		"multiples of 2^60/2^61, 2/3 and 4/5 of MaxInt, 2^31/2^32 +-1, anything in 2^31..MaxInt-600, or 0..70 (then with a huge capacity); S among 0, 1..100, up to capacity MaxInt, up to capacity 2^k+d, anything; histories from the burst generator (<= 260 ops). " +
 		"Lengths stay 600 below MaxInt and cases with more than 600 insertions are skipped: a stack cannot hold more than MaxInt values (append panics in the unchanged library, not judged). " + rule +
 		"; non-trivial = at least 5 ops, 2 insertions, 2 removals and a capacity of at least 2^15",
@@ -316,7 +316,7 @@ var specHuge = pbt.Register(&pbt.Spec[Case]{
 						continue
 					}
 					o := ops
-					if idx%8 == 3 {
+					if idx%16 == 3 {
 						o = opsGC
 					}
 					if !yield(Case{Kind: preKind(l, s, elem), Quiet: idx%5 == 0, Ops: o}) {
